@@ -477,17 +477,18 @@ def gen_rtype(depth, customs, allow_opt=True):
     raise AssertionError(k)
 
 
-DOCS = ["The identifier", "a value", "is it on?", "count of things (approx.)", "x", "Name, as given: by the user", "100% sure", "# not a heading"]
+DOCS = ["The identifier", "a value", "is it on?", "count of things (approx.)", "x", "Name, as given: by the user", "100% sure", "# not a heading", "", "second paragraph, after a blank line"]
 
 
 def docs():
     if R.random() < 0.4:
-        return [R.choice(DOCS) for _ in range(R.randint(1, 2))]
+        return [R.choice(DOCS) for _ in range(R.randint(1, 3))]
     return []
 
 
 def doc_attr(ds, indent):
-    return "".join(f"{indent}/// {d}\n" for d in ds)
+    # an empty doc line is a bare `///` (the usual paragraph separator)
+    return "".join(f"{indent}/// {d}\n" if d else f"{indent}///\n" for d in ds)
 
 
 def gvec(ds):
